@@ -200,8 +200,20 @@ impl Gen<'_> {
         let n = self.docn;
         let period = self.r.chance(50);
         let dot = if period { "." } else { "" };
-        match self.r.below(4) {
-            0 | 1 => {
+        match self.r.below(6) {
+            4 => {
+                // paragraphs separated by more than one blank line, and a third paragraph
+                let a = format!("Brief of {} number {}{}", about, n, dot);
+                let b = format!("Middle paragraph of item {}.", n);
+                let c1 = format!("Last paragraph of item {}", n);
+                let c2 = "ends here.".to_string();
+                Some(DocM {
+                    lines: vec![a.clone(), String::new(), String::new(), b.clone(), String::new(), String::new(), String::new(), c1.clone(), c2.clone()],
+                    summary: a.trim_end_matches('.').to_string(),
+                    paragraphs: vec![a, b, format!("{} {}", c1, c2)],
+                })
+            }
+            0 | 1 | 5 => {
                 let l = format!("Summary of {} number {}", about, n);
                 Some(DocM {
                     lines: vec![format!("{}{}", l, dot)],
@@ -357,7 +369,7 @@ impl Gen<'_> {
                                 l = Some(ws.join("-"));
                                 lg = true;
                             } else {
-                                l = Some(format!("{}{}", self.r.pick(&["конф", "long-x", "o", "值", "maxLevel", "log_file", "Xy", "очень-длинное-имя"]), longs.len()));
+                                l = Some(format!("{}{}", self.r.pick(&["конф", "long-x", "o", "值", "maxLevel", "log_file", "Xy", "очень-длинное-имя", "connection-timeout-millis-extended-x"]), longs.len()));
                             }
                             if self.help_names && self.r.chance(30) {
                                 l = Some("help".to_string());
